@@ -13,8 +13,10 @@ PH = B.mov(1, 5) + B.mov(2, 0) + B.mov(3, 0) + B.mov(4, 0) + B.mov(5, 0) + B.ins
 # main -> f1 -> f2, f2 returns f1's frame size (f1 starts at a different pc in the two programs): interpreter only
 PC = B.callx(1) + B.EXIT + B.movr(6, 10) + B.callx(1) + B.EXIT + B.movr(0, 6) + B.alu('sub', 0, src=10) + B.EXIT
 PD = B.mov(0, 0) + B.callx(1) + B.EXIT + B.movr(6, 10) + B.callx(1) + B.EXIT + B.movr(0, 6) + B.alu('sub', 0, src=10) + B.EXIT
-PROGS = {'P1': P1, 'P2': P2, 'PW': PW, 'PBAD': PBAD, 'PH': PH, 'PC': PC, 'PD': PD}
-PCODE = {'P1': 1, 'P2': 2, 'PW': 3, 'PBAD': 4, 'PH': 5, 'PC': 6, 'PD': 7}
+# P1 followed by dead code: the same value, another program (loaded from the same address in the same-address histories)
+P1L = P1 + B.mov(0, 9) + B.EXIT
+PROGS = {'P1': P1, 'P2': P2, 'PW': PW, 'PBAD': PBAD, 'PH': PH, 'PC': PC, 'PD': PD, 'P1L': P1L}
+PCODE = {'P1': 1, 'P2': 2, 'PW': 3, 'PBAD': 4, 'PH': 5, 'PC': 6, 'PD': 7, 'P1L': 8}
 VCODE = {'default': 0, 'accept': 1, 'reject': 2, 'exit': 3}
 
 HEADER = '''From Coq Require Import ZArith List Bool.
@@ -22,21 +24,21 @@ From RbpfV Require Import VmApi.
 Import ListNotations.
 Open Scope Z_scope.
 
-(* programs 1..7 = P1 P2 PW PBAD PH PC PD; verifiers 0..3 = default accept-all reject-all ends-in-exit-without-calls;
+(* programs 1..8 = P1 P2 PW PBAD PH PC PD P1L; verifiers 0..3 = default accept-all reject-all ends-in-exit-without-calls;
    calculators: 0 = none installed (256 bytes per frame), c = the constant c *)
 Definition accepts (v p : Z) : bool :=
   match v with
-  | 0 => (p =? 1) || (p =? 2) || (p =? 5) || (p =? 6) || (p =? 7)
+  | 0 => (p =? 1) || (p =? 2) || (p =? 5) || (p =? 6) || (p =? 7) || (p =? 8)
   | 1 => true
   | 2 => false
-  | _ => (p =? 1) || (p =? 2) || (p =? 3)
+  | _ => (p =? 1) || (p =? 2) || (p =? 3) || (p =? 8)
   end.
 (* registrations, most recent first: 1 = helper id 1 bound to h_mix, 1001 = helper id 1 bound to h_clobber *)
 Fixpoint reg1 (h : list Z) : Z :=
   match h with [] => 0 | x :: r => if x =? 1 then 1 else if x =? 1001 then 2 else reg1 r end.
 (* PC / PD return the frame size of their middle function: that of the table in use if it was computed from this very program *)
 Definition value (p : Z) (h : list Z) (u : option (Z * Z)) : Z + unit :=
-  match p with 1 => inl 1 | 2 => inl 2 | 3 => inl 3 | 4 => inl 4
+  match p with 1 => inl 1 | 2 => inl 2 | 3 => inl 3 | 4 => inl 4 | 8 => inl 1
   | 6 | 7 => match u with Some (q, c) => if q =? p then inl (if c =? 0 then 256 else c) else inl (-1) | None => inl (-1) end
   | _ => match reg1 h with 1 => inl 16 | 2 => inl 6 | _ => inr tt end end.   (* h_mix 5 0 0 0 0 = 16, h_clobber 5 .. = 6 *)
 Definition cvalue (p : Z) (h : list Z) : Z + unit := value p h None.
@@ -68,10 +70,10 @@ OPS = ['setp:P1', 'setp:P2', 'setp:PW', 'setp:PBAD', 'setp:PH', 'setv:default', 
        'helper:1:mix', 'helper:1:clobber', 'calc:64', 'jit', 'cl', 'x', 'xj', 'xc']
 
 
-def op_line(o):
+def op_line(o, shared=False):
     k = o.split(':')
     if k[0] == 'setp':
-        return 'setp:' + PROGS[k[1]].hex()
+        return 'setp:' + ('@' if shared else '') + PROGS[k[1]].hex()
     return o
 
 
@@ -128,6 +130,19 @@ def run(chk):
                         hists.append((init, list(h)))
         for _ in range(4000 if thorough else 400):
             hists.append((rng.choice(['none', 'PC', 'PD', 'P1']), [rng.choice(CALC_OPS) for _ in range(5 + rng.below(8))]))
+        # same-address histories: every program is placed at the start of one buffer (harness `@`), so that a program and the one
+        # loaded after it begin at the same address and differ only in length (P1 / P1 followed by dead code); what the VM holds
+        # -- compiled code included -- must follow the most recent successful load all the same
+        SHARE_OPS = ['setp:P1', 'setp:P1L', 'setp:P2', 'jit', 'cl', 'x', 'xj', 'xc']
+        n_plain = len(hists)
+        for init in ('none', 'P1', 'P1L'):
+            for n in ((1, 2, 3, 4) if thorough else (1, 2, 3)):
+                for h in itertools.product(SHARE_OPS, repeat=n):
+                    if h[-1] in ('xj', 'xc', 'x') and any(o.startswith('setp') for o in h):
+                        hists.append((init, list(h)))
+        for _ in range(3000 if thorough else 400):
+            hists.append((rng.choice(['none', 'P1', 'P1L']), [rng.choice(SHARE_OPS) for _ in range(4 + rng.below(8))]))
+        shared_range = (n_plain, len(hists))
         kinds = ['mbuff', 'raw', 'nodata', 'fixed']
         # directed: compiling again after something changed must pick the change up (helper re-bound, program reloaded), on every kind
         directed = []
@@ -143,9 +158,10 @@ def run(chk):
                 hists.append(('none', h))
         lines, metas = [], []
         for k, (init, h) in enumerate(hists):
-            kind = kinds[k % 4] if len(h) > 2 else 'mbuff'
-            newarg = 'none' if init == 'none' else PROGS[init].hex()
-            lines.append('api %s new:%s;%s' % (kind, newarg, ';'.join(op_line(o) for o in h)))
+            shared = shared_range[0] <= k < shared_range[1]
+            kind = kinds[k % 4] if len(h) > 2 or shared else 'mbuff'
+            newarg = 'none' if init == 'none' else ('@' if shared else '') + PROGS[init].hex()
+            lines.append('api %s new:%s;%s' % (kind, newarg, ';'.join(op_line(o, shared) for o in h)))
             metas.append((kind, init, h))
         answers = vlib.harness_run(binary, lines)
         terms, idx = [], []
@@ -203,7 +219,8 @@ def run(chk):
         chk.cov['distinct_nontrivial'] = len({l for l in lines})
         chk.cov['rule'] = ('all histories of length <= %d over' % (4 if thorough else 2) + ' a 17-operation alphabet from 4 initial programs (exhaustive), plus seeded random '
                            'histories of length 3..12 over the 4 VM kinds; verifier menu {default, accept-all, reject-all, ends-in-exit}, program menu '
-                           '{valid x2, valid only for other verifiers x2, needs a helper}; every answer of every call is compared; distinct = distinct history')
+                           '{valid x2, valid only for other verifiers x2, needs a helper}; calculator / reload histories; same-address histories (programs of one '
+                           'history placed at the start of one buffer); every answer of every call is compared; distinct = distinct history')
         chk.cov['input_distribution'] = {'histories': len(lines), 'exhaustive_up_to_length': 4 if thorough else 2}
         chk.cov['samples'] = [{'request': lines[i][:300], 'answer': answers[i][:120]} for i in (5, 1000, len(lines) - 1)]
     vlib.report_broken(chk, res, found)
